@@ -43,13 +43,23 @@ Inductive op :=
 | OBeats (now v : num)       (* clock.beats = v                                 *)
 | OMeter (now v : num).      (* clock.beats_per_bar = v                         *)
 
+(* An error value stored into a field means that Python raised while evaluating that right-hand side.
+   A change either happens completely or raises: `strict` turns "a field is an error" into "raised" (None),
+   and a raising change leaves the clock as it was (checked against the real clock by the correspondence:
+   ARaise below compares the state AFTER a raising call with the state before it). *)
+Definition state_ok (s : clockstate) : bool :=
+  is_ok (tempo s) && is_ok (beat_dur s) && is_ok (base_seconds s) && is_ok (base_beats s) &&
+  is_ok (beats_per_bar s) && is_ok (bars_per_beat s) && is_ok (base_bar s) && is_ok (base_bar_beat s).
+Definition strict (r : option clockstate) : option clockstate :=
+  match r with Some s => if state_ok s then Some s else None | None => None end.
+
 Definition step (s : clockstate) (o : op) : option clockstate :=
-  match o with
-  | OTempo now v => py_tempo_set s now v
-  | OEtempo e v => py_etempo s e v
-  | OBeats now v => py_beats_set s now v
-  | OMeter now v => py_beats_per_bar_set s now v
-  end.
+  strict (match o with
+          | OTempo now v => py_tempo_set s now v
+          | OEtempo e v => py_etempo s e v
+          | OBeats now v => py_beats_set s now v
+          | OMeter now v => py_beats_per_bar_set s now v
+          end).
 
 Fixpoint run (s : clockstate) (h : list op) : option clockstate :=
   match h with
@@ -118,7 +128,8 @@ Definition eval (s : clockstate) (k : query) : num :=
   end.
 
 Inductive action :=
-| ASet (o : op) (expect : list (Z * Z * Z))   (* canonical state after; [] = the call raised *)
+| ASet (o : op) (expect : list (Z * Z * Z))   (* canonical state after the change *)
+| ARaise (o : op) (after : list (Z * Z * Z))  (* the call raised; canonical state of the clock after it *)
 | AAsk (k : query) (expect : Z * Z * Z)
 | APlay (id : N) (now : num) (a : quantarg)   (* Routine(id).play(clock, a) / clock.play(.., a) *)
 | APlayNextBar (id : N) (now : num)
@@ -144,7 +155,12 @@ Fixpoint replay_bad (rt : bool) (s : clockstate) (pl : list (N * pend)) (l : lis
       match step s o with
       | Some s' => if canon_list_eqb (canon_state s') e
                    then replay_bad rt s' (if rt || op_retimes o then retime_all s' pl else pl) r (N.succ i) else Some i
-      | None => match e with [] => replay_bad rt s pl r (N.succ i) | _ => Some i end
+      | None => Some i
+      end
+  | ARaise o e :: r =>
+      match step s o with
+      | Some _ => Some i
+      | None => if canon_list_eqb (canon_state s) e then replay_bad rt s pl r (N.succ i) else Some i
       end
   | AAsk k e :: r => if canon_eqb (canon (eval s k)) e then replay_bad rt s pl r (N.succ i) else Some i
   | APlay id now a :: r => replay_bad rt s ((id, sched_abs_nrt s (play_beat s now a)) :: pl) r (N.succ i)
@@ -158,10 +174,15 @@ Fixpoint replay_bad (rt : bool) (s : clockstate) (pl : list (N * pend)) (l : lis
   end.
 
 (* a session starts with the constructor: TempoClock(tempo, beats, seconds) at thread time now *)
-Definition session_bad (rt : bool) (now t b x : num) (e0 : list (Z * Z * Z)) (l : list action) : option N :=
-  match py_init clock_blank now t b x with
+Definition construct (now t b : num) (xo : option num) : option clockstate :=
+  match xo with
+  | Some x => py_init clock_blank now t b x        (* TempoClock(t, b, x), x any number, 0 included *)
+  | None => py_init_now clock_blank now t b        (* TempoClock(t, b): seconds is None *)
+  end.
+Definition session_bad (rt : bool) (now t b : num) (xo : option num) (e0 : list (Z * Z * Z)) (l : list action) : option N :=
+  match strict (construct now t b xo) with
   | Some s => if canon_list_eqb (canon_state s) e0 then replay_bad rt s [] l 1%N else Some 0%N
   | None => match e0 with [] => None | _ => Some 0%N end
   end.
-Definition session_ok (rt : bool) (now t b x : num) (e0 : list (Z * Z * Z)) (l : list action) : bool :=
-  match session_bad rt now t b x e0 l with None => true | Some _ => false end.
+Definition session_ok (rt : bool) (now t b : num) (xo : option num) (e0 : list (Z * Z * Z)) (l : list action) : bool :=
+  match session_bad rt now t b xo e0 l with None => true | Some _ => false end.
